@@ -458,7 +458,10 @@ fn write_evidence(o: &Opts, b: &Batch, violations: i128, known_hits: &[String], 
         ("distinct_nontrivial", i(b.distinct_nontrivial)),
         ("nontrivial_runs_before_dedup", i(st.nontrivial_runs)),
         ("rule", s(rule)),
-        ("samples", J::A(b.samples.iter().take(4).map(|(r, t)| obj(vec![("run", i(*r)), ("history", s(t))])).collect())),
+        ("samples", J::A(b.samples.iter().take(4).map(|(r, t)| {
+            let shown = if t.len() > 1500 { format!("{} … ({} characters in all)", &t[..t.char_indices().take_while(|(i, _)| *i < 1500).last().map(|(i, c)| i + c.len_utf8()).unwrap_or(0)], t.len()) } else { t.clone() };
+            obj(vec![("run", i(*r)), ("history", s(&shown))])
+        }).collect())),
         ("exhaustive", J::B(false)),
         ("runs_per_hour", J::N(b.runs_done as f64 / b.wall.max(1e-9) * 3600.0)),
         ("seeds_per_hour", J::N(b.runs_done as f64 / b.wall.max(1e-9) * 3600.0)),
